@@ -490,11 +490,16 @@ macro_rules! with_bundle {
             28 => { type $T = (TK,); $body }
             29 => { type $T = (A, TK); $body }
             30 => { type $T = (TK, B, Z); $body }
+            // out-of-contract: a component type named twice (must be rejected by hecs)
+            31 => { type $T = (A, A); $body }
+            32 => { type $T = (B, A, B); $body }
             _ => panic!("harness: bad bundle menu index"),
         }
     }};
 }
 pub const NBUNDLES: usize = 31;
+/// menu entries at and above `NBUNDLES` repeat a type
+pub const NBUNDLES_ALL: usize = 33;
 
 /// smaller menu for the removed side of `exchange` (keeps monomorphisation count down)
 #[macro_export]
@@ -512,11 +517,13 @@ macro_rules! with_small_bundle {
             7 => { type $T = (D, A); $body }
             8 => { type $T = (S, E); $body }
             9 => { type $T = (C, A, B); $body }
+            10 => { type $T = (A, A); $body }
             _ => panic!("harness: bad small bundle menu index"),
         }
     }};
 }
 pub const NSMALL: usize = 10;
+pub const NSMALL_ALL: usize = 11;
 
 pub fn bundle_types(k: usize) -> Vec<usize> {
     with_bundle!(k, T, <T as StaticBundle>::types())
